@@ -14,6 +14,8 @@ RESTRICT_FLAGS = {"REMOVE_CPULESS": 1, "ADAPT_MISC": 2, "ADAPT_IO": 4, "BYNODESE
 TYPES = S.T
 
 FIXED_SYNTHETIC = [
+    "pack:2 [numa(memory=1024 memorysidecachesize=256)] core:2 pu:1", "pack:2 [numa(memorysidecachesize=1024)] [numa] core:2 pu:2",
+    "numa:2(memorysidecachesize=4096) core:2 pu:1",
     "pack:2 [numa] core:2 [numa] pu:2", "pack:2 [numa] [numa] l2:2 [numa] pu:2",
     "numa:4 core:2 pu:1", "pack:2 core:2 pu:2", "pack:2 [numa] core:4 pu:1", "numa:2 pack:2 core:2 pu:1",
     "pack:2 core:1 pu:2", "group:2 pack:2 [numa] l2:2 core:1 pu:2", "pack:3 [numa] [numa] core:2 pu:1",
@@ -46,6 +48,8 @@ def gen_config(rng, quick=True, kind=None):
         lines.append("filter io %d" % rng.choice([0, 0, 3]))
     if rng.random() < 0.3:
         lines.append("filter 13 %d" % rng.choice([0, 0, 1, 2]))
+    if rng.random() < 0.4:
+        lines.append("filter 15 0")           # keep MemCache (KEEP_NONE by default)
     if rng.random() < 0.15:
         lines.append("filter %d %d" % (rng.choice([1, 2, 3, 5, 6, 7]), rng.choice([0, 1, 2])))
     flags = 0
@@ -62,13 +66,22 @@ def gen_config(rng, quick=True, kind=None):
     else:
         lines.append("env HWLOC_LIBXML_IMPORT %d" % rng.choice([0, 1]))
         pool = xml_pool(quick)
-        special = [x for x in pool if os.path.basename(x) in ("16em64t-4s2c2t-offlines.xml", "16amd64-8n2c-cpusets.xml", "irregulargroups-disallowed.xml")]
+        special = [x for x in pool if os.path.basename(x) in ("16em64t-4s2c2t-offlines.xml", "16amd64-8n2c-cpusets.xml", "irregulargroups-disallowed.xml", "memorysidecaches.xml")]
         lines.append("src xml " + (rng.choice(special) if special and rng.random() < 0.3 else rng.choice(pool)))
     return lines, kind
 
 
+# every kind of object a call may be aimed at: normal (Machine .. PU, caches, Group), NUMANode, MemCache, Bridge, PCIDev, OSDev, Misc
+ALL_KINDS = [0, 1, 2, 3, 4, 5, 6, 7, 13, 14, 14, 15, 15, 16, 17, 18, 19, 19]
+
+
 def ref(rng):
     return "#%d" % rng.randrange(0, 400)
+
+
+def kind_ref(rng):
+    """An object of a given type (harness: falls back to a syntax error line when the topology has none)."""
+    return "#t%d.%d" % (rng.choice(ALL_KINDS), rng.randrange(0, 8))
 
 
 def set_expr(rng, what="cs", allow_null=False):
@@ -140,7 +153,7 @@ def gen_call(rng):
             s = set_expr(rng, what)
         return "restrict %s %d" % (s, fl)
     if r < 0.26:
-        return "misc %s %s" % (ref(rng), rng.choice(["-", word(rng)]))
+        return "misc %s %s" % (kind_ref(rng) if rng.random() < 0.5 else ref(rng), rng.choice(["-", word(rng)]))
     if r < 0.50:
         parts = ["group"]
         q = rng.random()
@@ -309,6 +322,13 @@ DIRECTED += [
     # put-back path: the refused Group contains a child, is disjoint from the next one and straddles a later one
     ("group-conflict-putback-after-gap", ["flags 0", "src synthetic pack:4 core:2 pu:2"],
      ["group cs=b0+b1+b2+b3+b8+b9", "group cs=b4+b5+b6+b7+b12 dm=1", "group cs=b0+b1+b2+b3+b8+b9+b12+b13+b14+b15"]),
+    # Misc below every kind of parent, memory-side caches kept (MemCache and Misc are KEEP_NONE by default)
+    ("misc-under-every-kind-memcache", ["filter 15 0", "filter 19 0", "flags 0", "src synthetic pack:2 [numa(memory=1024 memorysidecachesize=256)] core:2 pu:1"],
+     ["misc #t15.0 m", "misc #t14.1 n", "misc #t19.0 nested", "misc #t4.0 pu", "misc #t15.1 m2", "restrict b0+b1 2", "group cs=b0", "misc #t15.0 again"]),
+    ("misc-under-every-kind-memcache-xml", ["filter all 0", "flags 1", "src xml " + os.path.join(C.REPO, "tests/hwloc/xml/memorysidecaches.xml")],
+     ["misc #t15.0 m", "misc #t15.3 m", "misc #t14.2 n", "misc #t19.1 nested", "allow 1 - -", "restrict ~b0 6"]),
+    ("misc-under-io", ["filter io 0", "filter 19 0", "flags 0", "src xml " + IO_XML],
+     ["misc #t16.0 b", "misc #t17.1 p", "misc #t19.0 nested", "restrict b0+b1 6", "misc #t17.0 p2"]),
     ("dontmerge-mixed-group-level", ["flags 0", "src synthetic pack:1 core:4 pu:1"],
      ["group cs=b0+b1", "group cs=b2+b3 dm=1", "restrict b0+b2 0"]),
     ("dontmerge-mixed-group-level-reversed", ["flags 0", "src synthetic pack:1 core:6 pu:1"],
@@ -318,6 +338,7 @@ DIRECTED += [
 ]
 
 MERGE_TOPOS = [
+    "pack:2 [numa(memory=1024 memorysidecachesize=256)] l2:2 [numa(memorysidecachesize=64)] core:2 pu:1",
     "pack:1 core:4 pu:2", "pack:2 core:4 pu:1", "pack:2 [numa] l2:2 [numa] core:2 pu:1", "pack:2 [numa] l2:2 [numa] core:1 pu:1",
     "group:2 pack:2 [numa] core:2 pu:1", "pack:1 [numa] die:2 [numa] l3:2 core:2 pu:1", "pack:3 [numa] [numa] core:2 pu:2",
     "numa:2 pack:2 l2:2 pu:2", "pack:2 die:1 core:2 pu:1",
@@ -329,6 +350,8 @@ def gen_merge_case(rng):
     some types KEEP_STRUCTURE, Groups inserted above existing levels, Misc (also nested) under objects of
     adjacent levels, then restricts that leave single-child chains.  Returns (config, calls, kind)."""
     cfg = ["filter 19 0"]
+    if rng.random() < 0.5:
+        cfg.append("filter 15 0")
     use_xml = rng.random() < 0.25
     if use_xml or rng.random() < 0.5:
         cfg.append("filter io 0")
@@ -365,7 +388,7 @@ def gen_merge_case(rng):
             calls.append("misc %s -" % small(12))
         calls.append("restrict %s %d" % ("+".join("b%d" % (2 * j + rng.randrange(2)) for j in range(k)), rng.choice([0, 0, 2, 6])))
     for _ in range(rng.randint(2, 10)):
-        calls.append("misc %s %s" % (small(20), rng.choice(["-", "m"])))
+        calls.append("misc %s %s" % (kind_ref(rng) if rng.random() < 0.35 else small(20), rng.choice(["-", "m"])))
     if rng.random() < 0.3:
         calls.append("ud %s" % small())
     for _ in range(rng.randint(1, 3)):
